@@ -64,6 +64,9 @@ Begin(t) ==
   /\ \A u \in FrameTasks(f, fstep[f]) : Tasks[u].pos < Tasks[t].pos => tstate[u] # "idle"
   /\ IF NeedsPermit(t)
      THEN tstate' = [tstate EXCEPT ![t] = "waiting"] /\ waitq' = Append(waitq, t) /\ UNCHANGED fstep
+     ELSE IF Tasks[t].kind = "leaf" /\ Tasks[t].instant
+     THEN \* a synchronous body (gate, sync function) runs to completion inside its task: no interleaving
+          tstate' = [tstate EXCEPT ![t] = "done"] /\ UNCHANGED <<waitq, fstep>>
      ELSE /\ tstate' = [tstate EXCEPT ![t] = "running"] /\ UNCHANGED waitq
           /\ IF Tasks[t].kind = "graph"
              THEN fstep' = [f2 \in FIds |-> IF f2 \in Names(Tasks[t].kids) THEN 1 ELSE fstep[f2]]
@@ -85,8 +88,11 @@ StartItem(f) ==
 
 Acquire ==
   /\ waitq # <<>> /\ permits > 0
-  /\ tstate' = [tstate EXCEPT ![Head(waitq)] = "running"]
-  /\ permits' = permits - 1 /\ waitq' = Tail(waitq)
+  /\ waitq' = Tail(waitq)
+  /\ IF Tasks[Head(waitq)].kind = "leaf" /\ Tasks[Head(waitq)].instant
+     THEN \* a synchronous function holds its permit only for the duration of its (atomic) call
+          tstate' = [tstate EXCEPT ![Head(waitq)] = "done"] /\ UNCHANGED permits
+     ELSE tstate' = [tstate EXCEPT ![Head(waitq)] = "running"] /\ permits' = permits - 1
   /\ UNCHANGED <<pid, fstep, order>>
 
 Complete(t) ==
